@@ -35,6 +35,7 @@ func c02Exec(c *pcase) (*core.Finding, bool) {
 	if p == nil || !inC01Domain(p) || !gen.WellFormedPacket(p) {
 		return nil, false
 	}
+	resetGlobals()
 	tname := bind.TypeNames[p.Type]
 	mk := func(class, what string) *core.Finding {
 		return &core.Finding{Class: tname + "/" + class, Sig: map[string]string{"type": tname}, Detail: fmt.Sprintf("%s: %s", c.describe(), what)}
